@@ -53,6 +53,22 @@ def check(ctx, doc):
         return False
     bw, aw = [x[0] for x in before], [x[0] for x in after]
     exp = {w: tuple(c) for w, c in doc["expected"]}
+    # a row with a cell above the page-height estimate is split into several rows (split_big_table_cells, documented): reading
+    # order *inside that source row* is two-dimensional, so its words are compared as a block (all present once, block in place)
+    rowof = {w: i for i, r in enumerate(doc.get("tall_rows") or []) for w in r}
+    if rowof and sorted(bw) == sorted(aw):
+        def blocks(ws):
+            out = []
+            for w in ws:
+                tok = ("row", rowof[w]) if w in rowof else w
+                if not (out and out[-1] == tok and w in rowof):
+                    out.append(tok)
+            return out
+
+        if blocks(bw) == blocks(aw):
+            pos = {w: i for i, w in enumerate(bw)}
+            after = sorted(after, key=lambda x: pos[x[0]])
+            aw = [x[0] for x in after]
     if bw != aw:
         lost = [w for w in bw if w not in aw]
         dup = sorted({w for w in aw if aw.count(w) > 1})
@@ -96,6 +112,9 @@ def replay(ctx, case):
     check(ctx, case)
 
 
+FUZZ_IMPORTS = ['mwlib.parser.refine.uparser', 'mwlib.parser.refine.core', 'mwlib.parser.refine.compat', 'mwlib.parser.expander', 'mwlib.parser.refine.parse_table', 'mwlib.parser.refine.tagparser', 'mwlib.parser.styleanalyzer', 'mwlib.parser.nodes', 'mwlib.parser.advtree', 'mwlib.parser.treecleaner', 'mwlib.parser.treecleanerhelper']
+
+
 def run_shard(ctx):
     @ctx.settings(ctx.n(16000, 320000))
     @given(_doc.documents(restricted=True))
@@ -109,6 +128,7 @@ def run_shard(ctx):
         ctx.record(doc["lang"] + doc["src"], labels, nt, sample=dict(lang=doc["lang"], src=doc["src"][:600], words=len(doc["expected"])))
 
     ctx.run_given(t)
+    ctx.fuzz_campaign("", (0, 160000))
 
     # line-based ddmin of one representative per bucket (the oracle compares the tree before/after cleaning, so a reduced
     # source needs no regenerated expectation)
